@@ -2,6 +2,7 @@
 C06 (own outcome).  Scenario generators + TLC model checking + trace validation."""
 import random
 import itertools
+import json
 
 DRIVER = 'harness.drivers.cache'
 COMP = 'cache'
@@ -138,6 +139,33 @@ def fam_evicting(rng, n):
     return out
 
 
+def stall_sweep(tier):
+    """In a few fixed programs each loop thread in turn is descheduled for a while at its k-th source line of the cache
+    wrapper, for every k: windows that need *time to pass* (the other threads are asleep at that moment) and that no
+    choice among runnable threads can open."""
+    bases = [
+        ({'loops': [{'name': 'L1', 'start': 0.0, 'callers': [{'c': 1, 'k': 'a'}], 'life': 'full'},
+                    {'name': 'L2', 'start': 0.0, 'callers': [{'c': 2, 'k': 'a', 'at': 0.5}, {'c': 3, 'k': 'b', 'at': 1.2}], 'life': 'full'}],
+          'func': {'dur': 1.0}, 'mapping': 'expc'}, 1.5),
+        ({'loops': [{'name': 'L1', 'start': 0.0, 'callers': [{'c': 1, 'k': 'a'}], 'life': 'early', 'main_dur': 0.5},
+                    {'name': 'L2', 'start': 0.0, 'callers': [{'c': 2, 'k': 'a', 'at': 0.2}], 'life': 'full'},
+                    {'name': 'L3', 'start': 0.0, 'callers': [{'c': 3, 'k': 'a', 'at': 1.0}], 'life': 'full'}],
+          'func': {'dur': 2.0}, 'mapping': 'dict'}, 1.0),
+        ({'loops': [{'name': 'L1', 'start': 0.0, 'callers': [{'c': 1, 'k': 'a'}, {'c': 2, 'k': 'b', 'at': 0.3}], 'life': 'full'},
+                    {'name': 'L2', 'start': 0.0, 'callers': [{'c': 3, 'k': 'a', 'at': 0.1}], 'life': 'full'}],
+          'func': {'dur': 0.5, 'fail': [1]}, 'mapping': 'tiny'}, 0.7),
+    ]
+    out = []
+    for base, d in bases:
+        for ls in base['loops']:
+            for k in range(1, 71 if tier == 'quick' else 161):
+                sc = json.loads(json.dumps(base))
+                sc['stalls'] = {ls['name']: [k, d]}
+                sc['strategy'] = {'kind': 'replay', 'prefix': []}
+                out.append(sc)
+    return out
+
+
 def directed():
     """Hand-written histories for the windows named in the property anchors."""
     out = []
@@ -248,6 +276,8 @@ def run(ctx):
     executed = ctx.run_and_validate(DRIVER, COMP, TRACE,
                                     [sc for sc in directed() if not (ctx.prop == 'C01' and sc.get('resume'))],
                                     'directed', nontrivial=nontrivial, known_match=known_match)
+    sw = [sc for sc in stall_sweep(ctx.tier) if not (ctx.prop == 'C01' and sc['mapping'] == 'tiny')]
+    ctx.run_and_validate(DRIVER, COMP, TRACE, sw, 'stall_sweep', nontrivial=nontrivial, known_match=known_match)
     for fam, gen in (('contention', fam_contention), ('lifecycle', fam_lifecycle),
                      ('faults', fam_faults), ('mixed', fam_mixed), ('evicting', fam_evicting)):
         n = int(sz[fam] * w[fam])
